@@ -315,7 +315,12 @@ def run_gpg_sign(spec, rec, lib):
     d = spec["scratch"]
     eps = entry_points(lib.repo, d)
     shim = os.path.join(VERIF, "vf", "shims")
-    home = gnupg.GpgHome().__enter__()
+    try:
+        home = gnupg.GpgHome().__enter__()
+    except Exception:  # noqa: BLE001 - environmental: skip the sub-workload
+        rec.count("gnupg_unavailable")
+        rec.case("gpg-sign-unavailable", nontrivial=False)
+        return
     try:
         fpr = list(gnupg.SHIPPED)[0]
         q = gnupg.SHIPPED[fpr]
